@@ -131,7 +131,7 @@ static FWire c16(Reader& r,FReader& f) {
         }
         TMesh tm(vs,ts);
         putV(o,Details::operatorFerguson(x,tm.V(0),tm.m));
-        if (op==22) {       // reference: sum over the fan of  int_T  n x grad(phi_V)(y) / |x-y| dy
+        if (op==22) {       // reference: sum over the fan of  int_T  grad(phi_V)(y) x n / |x-y| dy
             double tot[3]={0,0,0}; double err=0;
             for (size_t k=0;k<n;++k) {
                 const Vect3 A=vs[1+2*k], B=vs[2+2*k];
@@ -139,7 +139,7 @@ static FWire c16(Reader& r,FReader& f) {
                 const Vect3 e=B-A; const Vect3 fA=v-A; const Vect3 h=fA-(dotprod(fA,e)/e.norm2())*e;   // height vector
                 const Vect3 grad=h/h.norm2();
                 Vect3 nn=crossprod(A-v,B-v); nn=nn/nn.norm();
-                const Vect3 nxg=crossprod(nn,grad);
+                const Vect3 nxg=crossprod(grad,nn);   // grad(phi_V) x n
                 auto fn=[&](const Vect3& y,double* val){ const double rr=(x-y).norm(); val[0]=nxg.x()/rr; val[1]=nxg.y()/rr; val[2]=nxg.z()/rr; };
                 double out[3]; err+=reference<3>(fn,v,A,B,3,out);
                 for (int i=0;i<3;++i) tot[i]+=out[i];
@@ -211,6 +211,15 @@ static FWire c16(Reader& r,FReader& f) {
         double out[3]; double e=reference<3>(fn,a,b,c,3,out);
         putV(o,an.f(x)); for (int i=0;i<3;++i) o.f.push_back(out[i]); o.f.push_back(e);
         o.f.push_back(x.solid_angle(a,b,c)); return o; }
+    case 24: {   // analyticDipPotDer::f(y)_i  vs  -phi_i(y) d/dn [Dipole::potential](y) by central differences
+        Vect3 r0=getV(f),q=getV(f),a=getV(f),b=getV(f),c=getV(f),y=getV(f); TMesh tm=one(a,b,c); const Dipole dip(r0,q);
+        const analyticDipPotDer an(dip,tm.T()); putV(o,an.f(y));
+        const Vect3 nn0=crossprod(b-a,c-a); const double A2=nn0.norm(); const Vect3 nn=nn0/A2;
+        const double l1=dotprod(crossprod(y-a,c-a),nn)/A2, l2=dotprod(crossprod(b-a,y-a),nn)/A2, l0=1.0-l1-l2;
+        const double h=1e-5*(y-r0).norm();
+        const double dn=(dip.potential(y+h*nn)-dip.potential(y-h*nn))/(2*h);
+        o.f.push_back(-l0*dn); o.f.push_back(-l1*dn); o.f.push_back(-l2*dn);
+        return o; }
     default: throw Reader::Malformed();
     }
 }
